@@ -338,6 +338,19 @@ def rule_global_paren_annotation(case, sig, extra, match):
     return False
 
 
+def rule_class_generator_base(case, sig, extra, match):
+    """C12-F17: a bare generator expression as the only "argument" of a class statement compiles in CPython (the
+    check for unparenthesised generators applies to calls), parso reports invalid syntax."""
+    text, v, m = extra
+    if len(sig) < 2 or sig[1] != 'SyntaxError: invalid syntax':
+        return False
+    for cd in _names_in(m, ('classdef',)):
+        for c in cd.children:
+            if c.type in ('argument', 'arglist') and _names_in(c, ('comp_for', 'sync_comp_for')):
+                return True
+    return False
+
+
 def rule_await_36(case, sig, extra, match):
     """C12-F6: grammar 3.6 treats async/await as keywords; CPython 3.6 still accepts them as identifiers
     (documented upstream limitation), so e.g. a call `await ()` is judged as an await expression."""
@@ -351,7 +364,7 @@ def rule_debug_global(case, sig, extra, match):
         sig[1] == "SyntaxError: name '__debug__' is used prior to global declaration"
 
 
-RULES = {'c12_global_paren_annotation': rule_global_paren_annotation, 'c12_global_comprehension_target': rule_global_comprehension_target, 'c12_continue_finally_loop': rule_continue_finally_loop, 'c12_async_comprehension': rule_async_comprehension,
+RULES = {'c12_class_generator_base': rule_class_generator_base, 'c12_global_paren_annotation': rule_global_paren_annotation, 'c12_global_comprehension_target': rule_global_comprehension_target, 'c12_continue_finally_loop': rule_continue_finally_loop, 'c12_async_comprehension': rule_async_comprehension,
          'c12_walrus_argument': rule_walrus_argument, 'c12_nested_format_spec': rule_nested_format_spec,
          'c12_pep701': rule_pep701, 'c12_global_type_params': rule_global_type_params, 'c12_await_36': rule_await_36, 'c12_debug_global': rule_debug_global, 'c12_formfeed_indent': rule_formfeed_indent, 'c12_global_lambda': rule_global_lambda,
          'c12_global_import': rule_global_import, 'c12_global_annotation_module': rule_global_annotation_module,
